@@ -602,6 +602,10 @@ def check_conversions(ctx, budget):
     if ctx.tier == 'quick':
         rng.shuffle(dense)
         dense = dense[:40]
+    else:
+        # one part of the dense enumeration per shard of a sharded thorough run
+        dense = dense[getattr(ctx, 'shard', 0)::max(1, getattr(ctx, 'nshards', 1))]
+        rng.shuffle(dense)
     for nbits, sizes, bit_order, perm_bits, int_levels in dense:
         if time.time() > t_end:
             break
@@ -701,6 +705,9 @@ def check_pointwise(ctx, budget):
     if ctx.tier == 'quick':
         k = ctx.seed % len(shapes)
         shapes = [shapes[k], shapes[(k + 5) % len(shapes)], shapes[(k + 7) % len(shapes)]]
+    elif getattr(ctx, 'nshards', 1) > 1:
+        k, n = ctx.shard, ctx.nshards
+        shapes = [sh for j, sh in enumerate(shapes) if j % n == k % len(shapes) % n] or [shapes[k % len(shapes)]]
     for lens in shapes:
         if time.time() > t_end:
             break
@@ -1161,15 +1168,18 @@ def check_C15(ctx):
         raise RuntimeError('lake build ddvmdd failed:\n' + out[-3000:])
     import time
     quick = ctx.tier == 'quick'
+    # thorough: fractions of what is left of the budget (the sharded runner of the main tree calls
+    # this function repeatedly with a per-shard budget)
+    left = max(60.0, ctx.time_left())
     used = time.time() - ctx.t0
     probe_negative_root(ctx)
-    check_pointwise(ctx, used + (6 if quick else 120))
+    check_pointwise(ctx, used + (6 if quick else 0.2 * left))
     used = time.time() - ctx.t0
-    check_rejected_conversions(ctx, 60 if quick else 600)
+    check_rejected_conversions(ctx, 60 if quick else 300)
     used = time.time() - ctx.t0
-    check_histories(ctx, used + (9 if quick else 150))
+    check_histories(ctx, used + (9 if quick else 0.25 * left))
     used = time.time() - ctx.t0
-    check_conversions(ctx, used + (14 if quick else 250))
+    check_conversions(ctx, used + (14 if quick else 0.42 * left))
 
 
 REGISTRY = {
